@@ -935,6 +935,9 @@ func init() {
 		Run: func(c *core.Ctx) {
 			c.Res.Rule = "hostile-input language (harness/wire, valid credential): per case 1..5 arrivals against a real protocol.Mux endpoint hosted in a CHILD process — every protocol type 0..255 (wrong-direction and undefined included), session id 0 / random / own session / own second session / ANOTHER user's session, boundary and random seq (on TCP both the in-sequence number a session expects and out-of-sequence ones) / unAck / window / fragment / status, prefix / payload / suffix lengths consistent or not with the bytes that follow, session payloads around 1024, low-entropy mode / mask weight / rotation / extracted length valid and invalid, stale timestamps, a second credential, corrupted tags and padding bits, replays, unauthenticated garbage of every length 0..2000 — against a real SERVER (attacker = registered user bob, victim = alice) and a real CLIENT (the harness plays the server), on TCP and UDP. The Lean model Mieru.Dispatch predicts drop / closeSession / closeUnderlay / deliver / createSession per arrival; the child reports what the application and the wire saw (new session accepted, target closed, close-request reply, payload delivered, sender's other session and the OTHER USER's session still echo, connection up). Direct oracle: the child process survives and the other user's session keeps echoing. Plus SOCKS5 byte strings (random, every truncation, every ATYP, domain lengths 0/255) against Request/Response.ReadFromSocks5, ReadSocks5Request/Response, AddrSpec.ReadFromSocks5 (compared with Mieru.SocksReq), parseSocks5UDPDatagram, UDPAssociateWrapper.ReadFrom, PacketOverStreamTunnel.Read, the socks5 client's reply handling and TransceiveUDPPacket (each under recover). Distinct = distinct case JSON."
 			c.Correspondence("per-arrival outcome class of real endpoints (child process) = Mieru.Dispatch.udpStep / tcpStep on the same decoded fields; Request/Response/AddrSpec parsers = Mieru.SocksReq.parseMsg / parseMsg4 / SocksMsg.parseAddr")
+			if !stageOn("main") { // development switch (VH_ONLY), see c02_flow.go
+				return
+			}
 			corpusCases, others := c10LoadCorpus(c)
 			var jobs []c10Job
 			for _, k := range corpusCases {
